@@ -393,7 +393,9 @@ func kvfsXdev(c *Ctx, what string, size string) {
 	var pan string
 	switch what {
 	case "pack-tar":
-		_, rerr, pan = safeCall(func() (api.WareID, error) { return tartrans.Pack(ctx, "tar", src, pf, whAddr("ca", whDir), rio.Monitor{}) })
+		_, rerr, pan = safeCall(func() (api.WareID, error) {
+			return tartrans.Pack(ctx, "tar", src, pf, whAddr("ca", whDir), rio.Monitor{})
+		})
 	case "mirror":
 		_, rerr, pan = safeCall(func() (api.WareID, error) {
 			return tartrans.Mirror(ctx, id, whAddr("ca", whDir), []api.WarehouseLocation{whAddr("ca", srcWh)}, rio.Monitor{})
@@ -427,7 +429,9 @@ func kvfsXdev(c *Ctx, what string, size string) {
 func verifhookQuiet(f func()) { f() }
 
 // kvfsFullDisk: a real ENOSPC — the warehouse is a tiny tmpfs.
-func kvfsFullDisk(c *Ctx, what string, whKind string) { kvfsFullDiskSized(c, what, whKind, "64k", 300000) }
+func kvfsFullDisk(c *Ctx, what string, whKind string) {
+	kvfsFullDiskSized(c, what, whKind, "64k", 300000)
+}
 
 // kvfsFullDiskSized: `size` = tmpfs size option, `n` = bytes of incompressible payload.
 func kvfsFullDiskSized(c *Ctx, what string, whKind string, size string, n int) {
@@ -480,7 +484,6 @@ func kvfsFullDiskSized(c *Ctx, what string, whKind string, size string, n int) {
 		return nil
 	})
 }
-
 
 // kvfsOverlap: two writers on one warehouse address at the same time. Writer A (ware X) is held at its pause-th write;
 // writer B (file://: another ware Y, the address is the same; ca+file://: the same ware X) runs to completion; A resumes.
@@ -925,8 +928,8 @@ func kvfsEngine(c *Ctx) {
 		}
 	}
 	for _, w := range []string{"pack-tar", "mirror"} {
-		kvfsXdev(c, w, "64k")  // too small for the ware
-		kvfsXdev(c, w, "8m")   // large enough
+		kvfsXdev(c, w, "64k") // too small for the ware
+		kvfsXdev(c, w, "8m")  // large enough
 	}
 	for _, w := range whats {
 		for _, k := range []string{"ca", "file"} {
